@@ -61,8 +61,9 @@ def generate(rng, tier):
     depth = rng.range(0, 3)
     chain = ["p", "p/a", "p/a/b", "p/a/b/c"][: depth + 1]
     levels = chain + (["p/s"] if rng.chance(40) else []) + (["."] if rng.chance(15) else [])
+    bare = rng.chance(20)  # no project config anywhere: the per-user fallbacks decide
     for d in levels:
-        k = rng.below(100)
+        k = rng.below(100) if not bare else 99
         if k < 40:
             add_config(os.path.normpath(os.path.join(d, "rustfmt.toml")))
         elif k < 55:
@@ -87,6 +88,15 @@ def generate(rng, tier):
     elif hk < 52:
         home = None
         env["HOME"] = None
+    elif hk < 62:
+        # both fallback locations populated: the home directory wins over the user config directory
+        add_config("home/" + rng.choice([".rustfmt.toml", "rustfmt.toml"]))
+        if rng.chance(50):
+            add_config("home/.config/rustfmt/" + rng.choice([".rustfmt.toml", "rustfmt.toml"]))
+        else:
+            xdg = "xdg"
+            env["XDG_CONFIG_HOME"] = "$ROOT/xdg"
+            add_config("xdg/rustfmt/rustfmt.toml")
     files["home/.keep"] = ""
     nprobe = rng.range(1, 4)
     pdirs = rng.sample(chain + ["p/s"] * (1 if "p/s" in levels or rng.chance(30) else 0) or ["p"], min(nprobe, len(chain) + 1)) or ["p"]
